@@ -20,6 +20,19 @@ ex("C07", "concurrency limits, fan-out witness (first quiescent snapshot), deadl
 ex("C13", "guards (platforms, requires, enum, preconditions, prompt, internal) in every position, --yes/--force.")
 ex("C14", "defer entries (shell and task calls) with failing commands, nesting, sibling cancellation.")
 
+FP_NOTE = ("Trusted: TLC; the CLI binary built from /repo; crash points are command boundaries (SIGKILL issued by the task body); "
+           "one directory with two matched and one excluded source file, two contents per file; timestamp histories separated by 12 ms sleeps.")
+FP_TEXT = ("Fingerprint.tla (state under .task, write/roll-back protocol of both methods, every invocation mode) is model-checked by TLC against the "
+           "FpProps monitor (C04/C05/C12) for all histories up to the depth bound; histories from a grammar over 14 invocation modes x 11 file operations x 14 task "
+           "configurations plus seeded random ones are executed against the task CLI, the observed outcomes (body ran?, exit status, directory snapshot) are judged by "
+           "TLC with the same monitor and compared step by step with the model's prediction (conformance). ")
+def fp(pid, focus):
+    checks[pid] = dict(level="model_checking", text=FP_TEXT + "Focus: " + focus, note=FP_NOTE, ref="DESIGN.md 4.2, 5",
+                       tech="TLA+ state machine of fingerprint store (Fingerprint.tla) checked by TLC + history replay against the CLI + TLC evaluation of observed histories", engine="fp")
+fp("C04", "skip only after a successful attempt for the present fingerprint: failing, killed, declined, dry, status, list --json, other-task steps before a run.")
+fp("C05", "idempotence and re-execution after every file operation, missing generates, failing status, --force; excluded files must not trigger.")
+fp("C12", "--dry, --status, --list-all (+--json), --summary: nothing runs, directory snapshot byte- and mtime-identical.")
+
 ALL = ["C%02d" % i for i in range(1, 21)]
 pending = {p: "check not built yet in this round (planned, see DESIGN.md section 5)" for p in ALL if p not in checks}
 
@@ -33,6 +46,8 @@ m = {
  "engines": [
   {"name": "exec", "path": "specs/exec + harness/execfam", "serves_properties": ["C01","C02","C03","C06","C07","C13","C14"],
    "kind_free_text": "TLA+ executor model + property monitor; TLC model checking, trace validation, schedule-controlled replay into the real Executor"},
+  {"name": "fp", "path": "specs/fp + harness/fpfam", "serves_properties": ["C04","C05","C12"],
+   "kind_free_text": "TLA+ model of the up-to-date state machine + monitor; TLC model checking, history replay against the task CLI, TLC evaluation of observed histories"},
  ],
  "checks": [], "not_applicable": [], "notes": "Every check: bash /verif/run.sh <id> <quick|thorough>; replay: bash /verif/run.sh <id> --replay <file>."
 }
